@@ -137,7 +137,7 @@ def run_check(ctx):
     tlc.must_ok(res)
     terms = tlc.read_dump(dump)
     terms.sort(key=lambda r: (r["s"], r["e"]))
-    cap = 6000 if tier == "quick" else 40000
+    cap = 6000 if tier == "quick" else 15000
     if len(terms) > cap:
         step = -(-len(terms) // cap)
         terms = terms[::step]
@@ -375,7 +375,7 @@ def name_lookup(ctx, work):
     tlc.must_ok(res)
     progs = tlc.read_dump(dump)
     progs.sort(key=lambda r: repr(sorted(r.items())))
-    cap = 16000 if ctx.tier == "quick" else 80000
+    cap = 16000 if ctx.tier == "quick" else 40000
     if len(progs) > cap:
         step = -(-len(progs) // cap)
         progs = progs[::step]
